@@ -177,7 +177,16 @@ func sameType(x, y types.Type) bool {
 
 func (x iface) eq(t types.Type, _y interface{}) bool {
 	y := _y.(iface)
-	return sameType(x.t, y.t) && (x.t == nil || equals(x.t, x.v, y.v))
+	if !sameType(x.t, y.t) {
+		return false
+	}
+	if x.t == nil {
+		return true
+	}
+	if !types.Comparable(x.t) {
+		panic(rtPanic("runtime error: comparing uncomparable type " + typeName(x.t)))
+	}
+	return equals(x.t, x.v, y.v)
 }
 
 func (x iface) hash(outer types.Type) int {
